@@ -42,6 +42,9 @@ type LSpec struct {
 	// PkgNames: directory → package name used by the declaring packages.
 	PkgNames map[string]string `json:"pkg_names"`
 	Tag      string            `json:"tag"` // build tag, constraint is !Tag; "" = CLI default (goverter)
+	// TagList, when set, is the full -build-tags value (several tags, the negated one at any
+	// position); the constraint stays !tag().
+	TagList string `json:"tag_list,omitempty"`
 	// GuardedUser adds a user file guarded by the output constraint that references the
 	// generated identifiers of the first healthy struct-format converter.
 	GuardedUser bool `json:"guarded_user,omitempty"`
@@ -309,9 +312,12 @@ func (s *LSpec) World(name string) *World {
 		}
 	}
 	sort.Strings(w.Patterns)
-	if s.Tag != "" {
-		w.BuildTags = strp(s.Tag)
-		w.OutputConstraint = strp("!" + s.Tag)
+	if s.Tag != "" || s.TagList != "" {
+		w.BuildTags = strp(s.tag())
+		if s.TagList != "" {
+			w.BuildTags = strp(s.TagList)
+		}
+		w.OutputConstraint = strp("!" + s.tag())
 	}
 	return w
 }
@@ -323,6 +329,15 @@ func DrawLayout(rng *rand.Rand, nConv int, opts LayoutOpts) *LSpec {
 	s := &LSpec{UserPkgs: map[string]string{}, PkgNames: map[string]string{}}
 	if opts.CustomTags && rng.IntN(2) == 0 {
 		s.Tag = []string{"gen", "codegen", "x_y"}[rng.IntN(3)]
+	}
+	if opts.CustomTags && rng.IntN(3) == 0 {
+		// several build tags; the one the constraint negates at a drawn position
+		extra := []string{"integration", "tools", "e2e"}
+		rng.Shuffle(len(extra), func(i, j int) { extra[i], extra[j] = extra[j], extra[i] })
+		tags := append([]string{}, extra[:1+rng.IntN(2)]...)
+		at := rng.IntN(len(tags) + 1)
+		tags = append(tags[:at], append([]string{s.tag()}, tags[at:]...)...)
+		s.TagList = strings.Join(tags, ",")
 	}
 	nd := 1 + rng.IntN(3)
 	dirs := append([]string(nil), dirPool...)
